@@ -30,6 +30,7 @@ from ._helper import (
     _convert_name_to_convention,
     _create_name_annotation,
     _escape_comment_text,
+    _escape_string_content,
     _get_shortest_public_reexport,
     _replace_if_safeds_keyword,
 )
@@ -590,6 +591,8 @@ class StubsStringGenerator:
                             default_value = "[]"
                         elif assigned_by == ParameterAssignment.NAMED_VARARG and param_default_value == "{}":
                             default_value = "{}"
+                        elif len(param_default_value) >= 2 and param_default_value[0] == param_default_value[-1] == '"':
+                            default_value = f'"{_escape_string_content(param_default_value[1:-1])}"'
                         else:
                             default_value = param_default_value
                     elif isinstance(param_default_value, bool):
@@ -836,7 +839,7 @@ class StubsStringGenerator:
             types = []
             for literal_type in type_data["literals"]:
                 if isinstance(literal_type, str):
-                    types.append(f'"{literal_type}"')
+                    types.append(f'"{_escape_string_content(literal_type)}"')
                 elif isinstance(literal_type, bool):
                     if literal_type:
                         types.append("true")
